@@ -402,11 +402,11 @@ ADV_TYPES = ['a', 'b', 'e', 'A_', 'AB', 'Ab', 'C', 'S', 'T', 'Ok', 'Err', 'Some'
              'PhantomData', 'GuardError', 'DynamicError', 'AroundStage', 'M', 'MEvent', 'DynamicM', 'AnyMState', 'Machine',
              'State', 'Event', 'Inner', 'Ctx2', 'A1', 'X',
              # words that are keywords of the Ruby gem's DSL or of neighbouring libraries: they are ordinary identifiers here
-             'any', 'all', 'same', 'nil', 'except', 'loopback', 'initial_', 'state', 'event', 'Any', 'All', 'Same', '_Parked', 'Idle_']
+             'any', 'all', 'same', 'nil', 'except', 'loopback', 'initial_', 'state', 'event', 'Any', 'All', 'Same', '_Parked', 'Idle_', 'Écoute', 'ÀvalOuvert']
 ADV_VALUES = ['x_y', 'step_2', 'go_2_x', 'a_1', 'zz_top', 'b', 'new', 'handle', 'name', 'into_dynamic', 'current_state', 'ok', 'err', 'default', 'clone', 'inner', 'ctx',
               'payload', 'state', 'event', 'm', 'self_', 'new_machine', 'old_machine', 'machine', 'data', 'other', 'current',
               'fmt', 'eq', 'x', 'c', 's', 'a_data', 'state_data_a', 'into_a', 'set_a_data', 'callback_name',
-              'journal_sync', 'check_async', '_audit', '_x', 'x_', 'is_ok', 'r#try', 'r#match']
+              'journal_sync', 'check_async', '_audit', '_x', 'x_', 'is_ok', 'r#try', 'r#match', 'écoute', 'prüfen_größe']
 
 
 def rename_defn(d, mapping):
